@@ -26,8 +26,11 @@ def own_name_guard(eng: Engine, fn: FuncInfo, node: ast.AST) -> bool:
         if n.kind != 'assume':
             return False
         ex = expand_aliases(fn, n.ast)
-        atoms = split_conj(ex, n.polarity)
-        if isinstance(ex, ast.BoolOp) and isinstance(ex.op, ast.And) and not n.polarity:
+        polarity = n.polarity
+        while isinstance(ex, ast.UnaryOp) and isinstance(ex.op, ast.Not):       # `not (a and b)` taken true is `a and b` taken false
+            ex, polarity = ex.operand, not polarity
+        atoms = split_conj(ex, polarity)
+        if isinstance(ex, ast.BoolOp) and isinstance(ex.op, ast.And) and not polarity:
             # `if session and username == own: return` — on the false edge either there is no session or the name differs:
             # acceptable iff the negation of EVERY conjunct is one of the two accepted facts
             def neg_ok(c):
